@@ -288,3 +288,20 @@ Proof.
     rewrite parse_fnum_render. cbn [strip]. change (32 =? 32)%N with true. change (47 =? 47)%N with true. cbv iota.
     rewrite parse_fnum_render. cbn [strip]. change (41 =? 41)%N with true. cbv iota. reflexivity.
 Qed.
+
+(* finding F-FLOAT-LIT-RANGE: the operands are not always floating constants within the range of double: DBL_MIN written
+   2.2250738585072014e-308 = 11125369292536007 / (5 * 10^323), a normal double (>= 2^-1022) *)
+Theorem float_operands_in_range_refuted : exists n d,
+  0 < d /\ d <= n * 2 ^ 1022 /\ n < d /\ const_float_rational n d = Some (n, d) /\ const_float_operands_in_range n d = false.
+Proof.
+  exists 11125369292536007, (5 * 10 ^ 323). split; [reflexivity|]. split; [vm_compute; discriminate|]. split; [reflexivity|].
+  split; [apply float_expr_denotes_rational; reflexivity|]. vm_compute. reflexivity.
+Qed.
+
+(* ... and that is the only obstacle: outside the trigger both operands are in range and the expression denotes the rational *)
+Theorem float_operands_in_range_partial : forall n d, 0 < d -> float_lit_overflows n d = false ->
+  const_float_rational n d = Some (n, d) /\ const_float_operands_in_range n d = true.
+Proof.
+  intros n d Hd Ho. pose proof (float_expr_denotes_rational n d Hd) as H. split; [exact H|].
+  unfold const_float_operands_in_range. rewrite H, Ho. reflexivity.
+Qed.
